@@ -4,7 +4,7 @@
 # and the change's own property check (quick tier) is run from /root/vmx — a git worktree of /verif's HEAD with its own Lean build — with LARK_REPO pointing at the scratch tree.
 out=$1; shift
 vm=/root/vmx
-git -C $vm checkout -q --detach $(git -C /verif rev-parse HEAD) || exit 2
+git -C $vm reset -q --hard; git -C $vm checkout -q -f --detach $(git -C /verif rev-parse HEAD) || exit 2
 (cd $vm && ./check --setup >/dev/null 2>&1)
 mkdir -p /tmp/mx
 for m in "$@"; do
